@@ -55,9 +55,40 @@ package executor
 //@   ensures row-count-differs: beforeImage != nil && afterImage != nil && len(beforeImage.Rows) != len(afterImage.Rows) ==> !result0 && result1 == nil && !called("compareRows#1")
 //@   ensures rows-compared: beforeImage != nil && afterImage != nil && result0 && len(beforeImage.Rows) > 0 ==> called("compareRows#1") && callres("compareRows#1", 0)
 //@   at call compareRows#1: assert compares-own-rows: arg_oldRows == beforeImage.Rows && arg_newRows == afterImage.Rows
-//@ func (*BaseExecutor).queryCurrentRecords
+// The current rows for the validation (SELECT * ... FOR UPDATE): every row is read into destinations of
+// its own. NOT NULL numeric columns stay in the image as the destination POINTER, so destinations shared
+// between rows make every current row show the last row's numbers - a foreign write to an earlier row
+// is then not seen. fresh_dest is a typestate of the scan destinations: set by GetScanSlice, used up by
+// Scan. The key list / WHERE / parameter builders are the environment here.
+//@ ghost var fresh_dest bool
+//@ extlocal seata.apache.org/seata-go/pkg/datasource/sql/datasource.GetScanSlice
+//@   modifies ghost.fresh_dest
+//@   ensures ghost.fresh_dest && result != nil
+//@ extlocal (*database/sql.Rows).Scan
+//@   requires ghost.fresh_dest
+//@   modifies ghost.step_failed, ghost.fresh_dest
+//@   ensures ghost.step_failed == (old(ghost.step_failed) || result != nil) && !ghost.fresh_dest
+//@ ext (*database/sql.Rows).ColumnTypes
+//@   ensures true
+//@ ext (*database/sql.Rows).Columns
+//@   ensures true
+//@ func (*BaseExecutor).parsePkValues
 //@   trusted
 //@   ensures true
+//@ func buildWhereConditionByPKs
+//@   trusted
+//@   ensures true
+//@ func buildPKParams
+//@   trusted
+//@   ensures true
+//@ func (*BaseExecutor).queryCurrentRecords
+//@   prop C09 C01
+//@   requires b != nil
+//@   modifies ghost.rows_open, ghost.step_failed, ghost.fresh_dest
+//@   loop 1 invariant true
+//@   loop 2 invariant true
+//@   ensures rows-closed: ghost.rows_open == old(ghost.rows_open)
+//@   may_panic
 
 // SQL text builders and primary-key ordering: abstract here (string building over the table meta).
 //@ func (*mySQLUndoUpdateExecutor).buildUndoSQL
@@ -88,6 +119,7 @@ package executor
 //@ func (*BaseExecutor).dataValidationAndGoOn
 //@   prop C09 C01
 //@   requires b != nil
+//@   modifies ghost.rows_open, ghost.step_failed, ghost.fresh_dest
 //@   let on := undo.UndoConfig.DataValidation
 //@   ensures validation-off: !on ==> result0 && result1 == nil && !called("IsRecordsEquals#1")
 //@   ensures unchanged-needs-no-undo: on && called("IsRecordsEquals#1") && callres("IsRecordsEquals#1", 1) == nil && callres("IsRecordsEquals#1", 0) ==> !result0 && result1 == nil && !called("queryCurrentRecords#1")
